@@ -82,7 +82,9 @@ impl ErrorReporter for TermErrorReporter {
         snippet.opt.color = env::var("NO_COLOR").is_err() && std::io::stderr().is_terminal();
         let dl = annotate_snippets::display_list::DisplayList::from(snippet);
 
-        eprintln!("{}", dl);
+        // best effort: with stderr gone (`agrind ... 2>&1 | head`) eprintln! would panic
+        use std::io::Write as _;
+        let _ = writeln!(std::io::stderr(), "{}", dl);
     }
 }
 
